@@ -266,6 +266,13 @@ def run(case: dict, *, count_only: bool = False) -> Obs:
             env.spawn(f"force{idx}", cli.disconnect(force=True))
         elif act == "cancel":
             env.cancel("main")
+        elif act == "cancel_disc":
+            # the caller of a pending graceful disconnect() gives up (wait_for / task cancellation)
+            pend = [n for n, t in env.tasks if n.startswith("disconnect") and not t.done()]
+            if not pend:
+                obs.skipped.append(f"{idx}:cancel_disc-nothing-pending")
+                return
+            env.cancel(pend[-1])
         elif act in ("reuse_start", "reuse_finish"):
             # one connect per object: a second start/finish on the connection object in use must be
             # refused with RuntimeError and change nothing.  (A second finish while the first one is
